@@ -30,6 +30,10 @@ FLOAT_TYPES = ["f2", "f4", "f8"]
 TIME_UNITS = ["s", "ms", "us", "ns"]
 SHAPES = [(), (0,), (1,), (3,), (2, 2)]
 
+import collections
+
+Pair = collections.namedtuple("Pair", "lo hi")
+
 ATTRS = [
     {},
     {"units": "µs", "n": 3, "flag": True},
@@ -42,6 +46,8 @@ ATTRS = [
     {"quote": 'a "b" \\ c', "unicode": "σ⁰ λ 日本", "newline": "x\ny"},
     # regular-looking lists of pairs (what a 'store start/stop/step' optimisation would fold): starts and stops that advance by
     # different constants, by the same constant, geometric, with one irregular element
+    # containers that are subclasses of dict / list / tuple (isinstance, not type(...) is ...)
+    {"ordered": collections.OrderedDict(valid_range=(0, 5), names=["a", "b"]), "pair": Pair(1, 2), "pairs": [Pair(0, 1), Pair(2, 3)], "dd": collections.defaultdict(list, {"k": (1, 2)})},
     {"windows": [(0, 10), (20, 40), (40, 70)], "same": [(0, 10), (20, 30), (40, 50), (60, 70)], "lists": [[0, 1], [2, 4], [4, 7]], "geo": [(1, 2), (2, 4), (4, 8), (8, 16)], "odd": [(0, 5), (10, 15), (20, 26), (30, 35)], "runs": [1, 3, 5, 7, 9], "fruns": [0.5, 1.0, 1.5]},
 ]
 
